@@ -545,6 +545,84 @@ def empty_set_obligation(chk, F, rng):
                 chk.harness_error("%s did not reproduce" % name)
 
 
+def settings_forwarding_obligation(chk, F, rng):
+    """The tolerances and flags of the settings file reach fill_cij unchanged on the Calculator path (apply_symetry_on_elast_data): the two
+    tolerances are finite-domain symbolic values that include 0 -- 'exactly these refusals' is meant for every tolerance a user may write."""
+    import cij.io.traditional.elast_dat as ed
+    from cij.util import c_
+    chk.encode(ed.apply_symetry_on_elast_data)
+    ctx = new_context()
+    ctx.concretise_enabled = True
+    RA = ctx.var("residual_atol", nonneg=True, domain=[0, Fraction(1, 20), Fraction(1, 10), 1])
+    DA = ctx.var("drop_atol", nonneg=True, domain=[0, Fraction(1, 10 ** 8), Fraction(1, 1000)])
+    fails = []
+    n_paths = 0
+    t0 = time.time()
+    for ign_res, ign_rank in ((False, False), (True, False), (False, True)):
+        sym = {"system": "cubic", "ignore_residuals": ign_res, "ignore_rank": ign_rank, "drop_atol": DA, "residual_atol": RA}
+        seen = []
+
+        def recorder(df, *a, **kw):
+            seen.append((a, dict(kw)))
+            return df
+
+        def fn():
+            del seen[:]
+            data = ed.ElastData(100.0, 2, 50.0, [ed.ElastVolumeData(100.0 - 5 * r, {c_("11"): 300.0 + r, c_("12"): 100.0 + r, c_("44"): 80.0 + r}) for r in range(2)], [])
+            with patched((F, {"fill_cij": recorder})):
+                ed.apply_symetry_on_elast_data(data, dict(sym))
+            return list(seen)
+        try:
+            paths = X.explore(fn, name="C09:settings-forwarding", max_paths=64)
+        except SymError as e:
+            chk.inconclusive("settings forwarding", str(e))
+            return
+        n_paths += len(paths)
+        for p in paths:
+            if p.exception is not None:
+                fails.append("raises %s: %s" % (type(p.exception).__name__, str(p.exception)[:60]))
+                continue
+            if len(p.result) != 1:
+                fails.append("fill_cij called %d times" % len(p.result))
+                continue
+            a, kw = p.result[0]
+            names = ["system", "ignore_residuals", "ignore_rank", "drop_atol", "residual_atol"]
+            got = dict(zip(names, a))
+            got.update(kw)
+            with X.path_assumptions(p):
+                for k in ("drop_atol", "residual_atol"):
+                    if k not in got or Z.prove_equal(Sym.of(got[k]), Sym.of(sym[k]), name="C09:forward:" + k, timeout_ms=5000)[0] != "unsat":
+                        fails.append("%s reaches fill_cij as %s" % (k, Sym.of(got[k]).short(3) if k in got else "nothing"))
+            for k in ("system", "ignore_residuals", "ignore_rank"):
+                if got.get(k) != sym[k] or (k != "system" and got.get(k) is not sym[k] and bool(got.get(k)) != sym[k]):
+                    fails.append("%s reaches fill_cij as %r" % (k, got.get(k)))
+    chk.obligation("settings file -> fill_cij on the Calculator path: system, both ignore flags and both tolerances (finite-domain symbolic, 0 included) "
+                   "arrive unchanged [%d paths]" % n_paths, "unsat" if not fails else "sat", seconds=round(time.time() - t0, 2), kind="wiring", detail=sorted(set(fails))[:3])
+    if fails:
+        for ra, da in ((0.0, 1e-8), (0.1, 0.0), (0, 0), (0.05, 1e-3)):
+            seen = []
+
+            def rec2(df, *a, **kw):
+                seen.append((a, kw))
+                return df
+            data = ed.ElastData(100.0, 2, 50.0, [ed.ElastVolumeData(100.0 - 5 * r, {c_("11"): 300.0 + r, c_("12"): 100.0 + r, c_("44"): 80.0 + r}) for r in range(2)], [])
+            try:
+                with patched((F, {"fill_cij": rec2})):
+                    ed.apply_symetry_on_elast_data(data, {"system": "cubic", "ignore_residuals": False, "ignore_rank": True, "drop_atol": da, "residual_atol": ra})
+            except Exception as e:
+                chk.violation("settings-forwarding:raises", "apply_symetry_on_elast_data raises %s: %s for residual_atol = %r, drop_atol = %r" % (type(e).__name__, str(e)[:80], ra, da), {})
+                return
+            a, kw = seen[0]
+            got = dict(zip(["system", "ignore_residuals", "ignore_rank", "drop_atol", "residual_atol"], a))
+            got.update(kw)
+            if got.get("residual_atol") != ra or got.get("drop_atol") != da or got.get("ignore_rank") is not True or got.get("ignore_residuals") is not False:
+                chk.violation("settings-forwarding", "symmetry settings {residual_atol: %r, drop_atol: %r, ignore_rank: True} of the settings file reach fill_cij as "
+                              "residual_atol = %r, drop_atol = %r, ignore_rank = %r, ignore_residuals = %r" % (
+                                  ra, da, got.get("residual_atol"), got.get("drop_atol"), got.get("ignore_rank"), got.get("ignore_residuals")), {})
+                return
+        chk.harness_error("settings forwarding: '%s' did not reproduce" % fails[0])
+
+
 def configuration_twins(chk, F, rng):
     """Stage R(c): the same fill under configurations symbolic values cannot carry (dtype, cwd, relation-file path)."""
     from cij.data import get_data_fname
@@ -788,6 +866,7 @@ def main():
             passthrough_obligation(chk, F, system, rows, canon, rng)
     triclinic_obligation(chk, F, rng)
     empty_set_obligation(chk, F, rng)
+    settings_forwarding_obligation(chk, F, rng)
     configuration_twins(chk, F, rng)
     chk.bound(systems=systems, supplied_sets="canonical, full non-zero, canonical minus one key%s" % ("" if tier == "quick" else " (each), 3 exchanges"),
               flags="all 4 combinations", residual_atol=[0.1] if tier == "quick" else [0.1, 1e-4], rows=1 if tier == "quick" else 2,
